@@ -698,7 +698,11 @@ class Translator:
             return
         raise ExtractError(f'{where}: unsupported subscript assignment `{unparse(st)[:70]}`')
 
-    NOW_PATHS = ('self.ti', 'self.t.ti', 'self.sim.ti')
+    # Two clocks (round 3): a module counts ITS OWN steps (`self.ti`, `self.t.ti`); the simulation counts its own
+    # (`self.sim.ti`).  They coincide only while the module inherits the sim's timestep - a module may be given its own
+    # `dt` / `unit` - so the timer model keeps them apart: `now` (module clock) and `simNow` (unrelated rational).
+    NOW_PATHS = ('self.ti', 'self.t.ti')
+    SIM_NOW_PATHS = ('self.sim.ti', 'self.sim.t.ti')
 
     def num_tree(self, node, env):
         tr = self._num_tree(node, env)
@@ -715,17 +719,20 @@ class Translator:
         return tr
 
     def _num_tree(self, node, env):
-        """ right-hand side of a timer write as ('now') | ('timer', name) | ('dur', text) | ('add', a, b) | ('free', text):
+        """ right-hand side of a timer write as ('now') | ('simnow') | ('timer', name) | ('dur', text) | ('add', a, b) | ('free', text):
+            `now` = the module's own step index, `simnow` = the simulation's step index (a different clock),
             `dur` = an opaque duration (a drawn / rounded number, assumed non-negative by the timer theorems),
             `free` = anything else (no assumption) """
         if isinstance(node, ast.Name):
             v = env.get(node.id)
             if isinstance(v, Opaque) and v.text in self.NOW_PATHS: return ('now',)
+            if isinstance(v, Opaque) and v.text in self.SIM_NOW_PATHS: return ('simnow',)
             if isinstance(v, Opaque) and getattr(v, 'tree', None) is not None: return self.serialise(v.tree)
             if isinstance(v, (Rvs, Opaque)): return ('dur', self.canon(node, env))
             return ('free', self.canon(node, env))
         p = self.path_of(node, env)
         if p in self.NOW_PATHS: return ('now',)
+        if p in self.SIM_NOW_PATHS: return ('simnow',)
         if p and p.startswith('self.') and p[5:] in self.arrs and p[5:].startswith('ti_'): return ('timer', p[5:])
         if isinstance(node, ast.Subscript):
             b = self.path_of(node.value, env)
@@ -872,6 +879,7 @@ def render_timers(cls, arrs, res):
     L += quantifier_instances('SetPrognosesTG', fields)
     def rt(tr):
         if tr[0] == 'now': return 'some now'
+        if tr[0] == 'simnow': return 'some simNow'
         if tr[0] == 'timer': return f't.{tr[1]}'
         if tr[0] == 'dur': return f'some d.{names[tr]}'
         if tr[0] == 'free': return f'd.{names[tr]}'
@@ -879,7 +887,14 @@ def render_timers(cls, arrs, res):
     gv = 'g' if fields else '_g'
     uses_s = any(('s.' in render(op[2])) for op in res['t_ops'])
     uses_d = bool(durs or frees)
-    L.append(f'def setPrognosesTimers (now : Rat) ({"d" if uses_d else "_d"} : SetPrognosesD) ({"s" if uses_s else "_s"} : Flags) ({gv} : SetPrognosesTG) (t : Timers) : Timers :=')
+    def clocks(tr):
+        if tr[0] == 'add': return clocks(tr[1]) | clocks(tr[2])
+        return {tr[0]} & {'now', 'simnow'}
+    uses_sim = any('simnow' in clocks(op[3]) for op in res['t_ops'] if op[0] == 'tset')
+    uses_now = any('now' in clocks(op[3]) for op in res['t_ops'] if op[0] == 'tset')
+    L.append('/-- `now` = the step index of the module itself (`self.ti`), `simNow` = the step index of the simulation (`self.sim.ti`): two')
+    L.append('    clocks that agree only while the module inherits the simulation\'s timestep; the theorems quantify over both. -/')
+    L.append(f'def setPrognosesTimers ({"now" if uses_now else "_now"} {"simNow" if uses_sim else "_simNow"} : Rat) ({"d" if uses_d else "_d"} : SetPrognosesD) ({"s" if uses_s else "_s"} : Flags) ({gv} : SetPrognosesTG) (t : Timers) : Timers :=')
     for op in res['t_ops']:
         if op[0] == 'let':
             L += [f'  -- {op[3]}', f'  let {op[1]} := {render(op[2])}']
@@ -891,7 +906,9 @@ def render_timers(cls, arrs, res):
             L += [f'  -- {op[4]}', f'  let t := {{ t with {op[1]} := if {render(op[2])} then {rt(op[3])} else t.{op[1]} }}']
     L += ['  t', '']
     return L, dict(timers=timers, durations=[dict(field=n, text=t) for n, t in durs], free=[dict(field=n, text=t) for n, t in frees],
-                   atoms=fields, writes=[dict(timer=op[1], mask=render(op[2]), rhs=rt(op[3]), src=op[4]) for op in res['t_ops'] if op[0] == 'tset'])
+                   atoms=fields, uses_sim_clock=uses_sim,
+                   writes=[dict(timer=op[1], mask=render(op[2]), rhs=rt(op[3]), src=op[4], clocks=sorted(clocks(op[3])))
+                           for op in res['t_ops'] if op[0] == 'tset'])
 
 
 def quantifier_instances(tname, fields):
@@ -959,7 +976,8 @@ def translate_disease(src, name):
     L.append(f'def requestsDeath : Bool := {"true" if requests else "false"}')
     facts['has_step_die'] = bool(sd['sets']); facts['requests_death'] = requests
     # does every infection record the current step in ti_infected?  (new_infections counts `ti_infected == ti`)
-    NOW = {'self.ti', 'self.t.ti', 'self.sim.ti'}
+    # (the step counted by `update_results` is the module's own: `count_nonzero(ti_infected == self.ti)`; the sim's index is another clock)
+    NOW = {'self.ti', 'self.t.ti'}
     writes = [t for t in facts['methods']['set_prognoses']['timers'] if t['array'] == 'ti_infected']
     state = None
     for w in writes:
